@@ -18,6 +18,10 @@ type churnAction struct {
 	Kind string `json:"kind"` // "join" | "leave"
 	ID   uint64 `json:"id,omitempty"`
 	Pick int    `json:"pick"` // join: index of the entry member; leave: index of the leaver (mod live members at phase start)
+	// Rel joins take their id relative to a member at phase start: id = live[Focus].ID + Off
+	Rel   bool `json:"rel,omitempty"`
+	Focus int  `json:"focus,omitempty"`
+	Off   int  `json:"off,omitempty"`
 }
 
 type churnPhase struct {
@@ -114,6 +118,7 @@ func runChurn(r *simRing, plan churnPlan, out *churnOutcome) {
 			via    uint64
 		}
 		var rs []resolved
+		usedRel := map[uint64]bool{}
 		leaving := map[uint64]bool{}
 		nLeaves := 0
 		for _, a := range phase.Actions {
@@ -135,6 +140,14 @@ func runChurn(r *simRing, plan churnPlan, out *churnOutcome) {
 		}
 		for _, a := range phase.Actions {
 			if a.Kind == "join" {
+				if a.Rel {
+					id := (live[a.Focus%len(live)].ID + uint64(int64(a.Off))) & ringMax
+					for r.hasMember(id) || usedRel[id] {
+						id = (id - 1) & ringMax
+					}
+					usedRel[id] = true
+					a.ID = id
+				}
 				// entry: prefer (3 of 4) a member that is not leaving in this phase
 				via := live[a.Pick%len(live)]
 				if leaving[via.ID] && a.Pick%4 != 0 {
@@ -226,6 +239,12 @@ func (r *simRing) joinLocked(id, via uint64) (*ringsim.Member, error) {
 		m.Joined.Store(true)
 	}
 	return m, err
+}
+
+func (r *simRing) hasMember(id uint64) bool {
+	memberMapMu.Lock()
+	defer memberMapMu.Unlock()
+	return r.members[id] != nil
 }
 
 func (r *simRing) allMembers() []*ringsim.Member {
